@@ -85,7 +85,7 @@ Definition ghost_step (s : state) (o : op) (s' : state) (outs : list out) (g : g
     | OResume q => match get_queue s q with Some _ => add_set q resumed1 | None => resumed1 end
     | _ => resumed1
     end in
-  mkGhost (allocs1 ++ new_gallocs outs) (gh_events g ++ filter is_event outs) resumed2.
+  mkGhost (new_gallocs outs ++ allocs1) (gh_events g ++ filter is_event outs) resumed2.
 
 (** * C17: limits *)
 
@@ -202,6 +202,7 @@ Definition diff (l1 l2 : list N) : list N := filter (fun x => negb (mem x l2)) l
 
 (** the worker accounting of one allocation agrees with its history *)
 Definition accounting_ok (a : alloc) (g : galloc) : bool :=
+  nodupb (g_lost g) &&
   match a_status a with
   | Queued _ => match g_conn g, g_lost g with [], [] => true | _, _ => false end
   | Running _ conn disc =>
